@@ -90,6 +90,24 @@ def lemmas():
                      unwindset="s4_find.1:%d,s4_find.0:16,h_table_forms.0:34,h_table_forms.1:3,h_table_forms.2:20,h_table_forms.3:330" % (len(names) + 2),
                      ghosts=["g_row", "g_head", "g_t"], replay=table_replay, functions=[],
                      desc="supported set as a lemma over the constant tables: every operand format offered by a row that the look-up can return for a mnemonic is an operand-kind combination S4 lists for that mnemonic (%d mnemonics, 33 type strings); concrete evaluation" % len(names)))
+    # ---- T4: numerals through the real imm_tok
+    T4US = "strlen.0:30,h_imm_hex.0:18,h_imm_dec.0:20,m_in_set.0:3,strtok_r.0:30,strtok_r.1:30"
+    out.append(Lemma(name="C03.T4.imm_tok.hex", src="numerals.c", entry="h_imm_hex", props=["C03", "C11", "C16"], timeout=1800, unwind=30, unwindset=T4US,
+                     ghosts=["g_nd", "g_neg", "g_opt", "g_val"], functions=["imm_tok"],
+                     desc="real imm_tok on a symbolic numeral (reference model of strtoul): [-]0x + 1..17 symbolic hex digits: constant == value written; SMART marks the line for narrowing exactly when fewer than 16 digits are written; NASM/STRICT modes leave the options alone"))
+    for nd, tier in ((9, "quick"), (19, "thorough")):
+        out.append(Lemma(name="C03.T4.imm_tok.dec%d" % nd, src="numerals.c", entry="h_imm_dec", props=["C03", "C11", "C16"], timeout=3600, unwind=30, unwindset=T4US, defs={"DEC_MAX": str(nd)}, tier=tier,
+                         ghosts=["g_nd", "g_neg", "g_opt", "g_val"], functions=["imm_tok"], bounded=None if nd == 19 else "decimal literals of at most %d digits" % nd,
+                         desc="real imm_tok on a symbolic numeral (reference model of strtoul): [-] + 1..%d symbolic decimal digits (leading zeros included): constant == value written; SMART marks the line for narrowing" % nd))
+    # ---- T3: displacement numerals through the real mem_tok
+    for tag, pre, ab, ng in (("b+d", "[rax+", 0, 0), ("b-d", "[rax-", 0, 1), ("b+i*4+d", "[rax+rcx*4+", 0, 0), ("b+i*4-d", "[rax+rcx*4-", 0, 1), ("b+4*i+d", "[rax+4*rcx+", 0, 0),
+                             ("abs", "[", 1, 0), ("-abs", "[-", 1, 1), ("i*8+d", "[rcx*8+", 0, 0)):
+        for radix in (10, 16):
+            out.append(Lemma(name="C02.T3.mem_tok.%s.r%d" % (tag, radix), src="numerals.c", entry="h_mem_num", props=["C02", "C16"], timeout=1800, unwind=40,
+                             defs={"MPRE": '"\\"%s\\""' % pre if False else '"%s"' % pre, "MRADIX": str(radix), "MABS": str(ab), "MNEG": str(ng)},
+                             unwindset="strlen_int.0:40,find_add_mem.0:40,find_mem_const.0:40,get_index_reg.0:40,copy_index_reg.0:8,h_mem_num.0:14,h_mem_num.1:12", ghosts=["g_nd", "g_val"],
+                             tier="quick" if tag in ("b+d", "abs", "b+i*4-d") else "thorough", functions=["mem_tok", "find_add_mem", "find_mem_const", "get_index_reg", "process_neg_disp", "get_mod_disp"],
+                             desc="real mem_tok on '%s<numeral>]' with symbolic %s digits (reference model of strtoul): the value written reaches the record (radix from the spelling, leading zeros irrelevant)" % (pre, "decimal" if radix == 10 else "hexadecimal")))
     # ---- C16: spelling invariance of the real filter (2-run lemmas, bounded line length)
     SPB = lambda n: "line of %d symbolic characters (no terminator inside) plus the rewritten copy" % n
     for e, what in (("case", "changing the letter case of any subset of the characters does not change the filtered line"),
